@@ -5,6 +5,7 @@ import (
 	"errors"
 	"fmt"
 	"log/slog"
+	"math"
 )
 
 type ByteSize int64
@@ -45,6 +46,7 @@ func Parse(s string) (ByteSize, error) {
 	num := int64(0)
 	multiplier := int64(1)
 	foundUnit := false
+	foundDigit := false
 
 	for _, r := range s {
 		if isDigit(r) {
@@ -53,7 +55,11 @@ func Parse(s string) (ByteSize, error) {
 			}
 
 			digit := int64(r - '0')
+			if num > (math.MaxInt64-digit)/10 {
+				return 0, fmt.Errorf("%w: value too large in: %s", ErrInvalidFormat, s)
+			}
 			num = num*10 + digit
+			foundDigit = true
 		} else {
 			if foundUnit {
 				return 0, fmt.Errorf("%w in: %s", ErrMultipleUnits, s)
@@ -63,11 +69,18 @@ func Parse(s string) (ByteSize, error) {
 			if !exists {
 				return 0, fmt.Errorf("%w: %c in: %s", ErrUnknownUnit, r, s)
 			}
+			if !foundDigit {
+				return 0, fmt.Errorf("%w: no number before the unit in: %s", ErrInvalidFormat, s)
+			}
 
 			multiplier = unit
 			foundUnit = true
-			break
+			// Keep scanning: anything after the unit is an error
 		}
+	}
+
+	if num > math.MaxInt64/multiplier {
+		return 0, fmt.Errorf("%w: value too large in: %s", ErrInvalidFormat, s)
 	}
 
 	return ByteSize(num * multiplier), nil
